@@ -486,7 +486,8 @@ type seq struct {
 	flushed bool // no mutation since the last Flush
 	hashed  bool // the live trie was collapsed / reopened and not fully expanded since
 	ops     []*op
-	blocks  bool // "block profile": only what a node does to its live trie (PutBatch; Flush; sometimes Collapse(10))
+	viols   []*violation // non-fatal violations (reads on reopened tries)
+	blocks  bool         // "block profile": only what a node does to its live trie (PutBatch; Flush; sometimes Collapse(10))
 	log     []string
 	kinds   []string
 	nontri  bool
@@ -529,6 +530,21 @@ func guard(op string, f func()) (v *violation) {
 	}()
 	f()
 	return nil
+}
+
+// report records a violation that does not end the history (wrong answer of a
+// read on a reopened trie); one per signature and history.
+func (s *seq) report(v *violation) {
+	if v == nil {
+		return
+	}
+	for _, o := range s.viols {
+		if o.sig == v.sig {
+			return
+		}
+	}
+	s.logf("VIOLATION %s: %s", v.sig, v.detail)
+	s.viols = append(s.viols, v)
 }
 
 func (s *seq) logf(format string, a ...any) { s.log = append(s.log, fmt.Sprintf(format, a...)) }
@@ -846,6 +862,9 @@ func storeReaderModes(m mpt.TrieMode) []mpt.TrieMode {
 // battery runs the read checks at a flushed point on tries / a TrieStore
 // reopened from the root hash (and a few on the live trie).
 func (s *seq) battery(full bool) *violation {
+	// Everything below reads through tries / a TrieStore reopened from the root
+	// hash; a wrong answer there does not disturb the live trie, so it is
+	// recorded and the history goes on.
 	var root util.Uint256
 	if v := guard("StateRoot", func() { root = s.tr.StateRoot() }); v != nil {
 		return v
@@ -862,9 +881,7 @@ func (s *seq) battery(full bool) *violation {
 		if !full && s.r.Intn(3) != 0 {
 			continue
 		}
-		if v := s.checkGet(reader, who, k); v != nil {
-			return v
-		}
+		s.report(s.checkGet(reader, who, k))
 	}
 	nq := 4
 	if full {
@@ -877,33 +894,30 @@ func (s *seq) battery(full bool) *violation {
 		if s.r.Bool() {
 			fr = mpt.NewTrie(s.rootNode(root), rm, s.st)
 		}
-		if v := s.checkFind(fr, who); v != nil {
-			return v
-		}
+		s.report(s.checkFind(fr, who))
 	}
 	var ts *mpt.TrieStore
 	if v := guard("NewTrieStore", func() { ts = mpt.NewTrieStore(root, sm, s.st) }); v != nil {
 		return v
 	}
 	for i := 0; i < nq; i++ {
-		if v := s.checkSeek(ts, "TrieStore("+modeName(sm)+")"); v != nil {
-			return v
-		}
+		s.report(s.checkSeek(ts, "TrieStore("+modeName(sm)+")"))
 	}
 	for i := 0; i < 3; i++ {
 		k := s.anyKey()
 		var got []byte
 		var err error
 		if v := guard("TrieStore.Get", func() { got, err = ts.Get(append([]byte{stPrefix}, k...)) }); v != nil {
-			return v
+			s.report(v)
+			continue
 		}
 		s.obs["triestore_gets"]++
 		want, present := s.content[string(k)]
 		if present && (err != nil || !bytes.Equal(got, want)) {
-			return &violation{"get-differs-from-content:triestore", fmt.Sprintf("TrieStore.Get(%s) = %s, %v; content has %s", hx(k), hx(got), err, hx(want))}
+			s.report(&violation{"get-differs-from-content:triestore", fmt.Sprintf("TrieStore.Get(%s) = %s, %v; content has %s", hx(k), hx(got), err, hx(want))})
 		}
 		if !present && !errors.Is(err, storage.ErrKeyNotFound) {
-			return &violation{"get-differs-from-content:triestore", fmt.Sprintf("TrieStore.Get(%s) = %s, %v; key is absent", hx(k), hx(got), err)}
+			s.report(&violation{"get-differs-from-content:triestore", fmt.Sprintf("TrieStore.Get(%s) = %s, %v; key is absent", hx(k), hx(got), err)})
 		}
 	}
 	preader := mpt.NewTrie(s.rootNode(root), rm, s.st)
@@ -911,9 +925,7 @@ func (s *seq) battery(full bool) *violation {
 		if !full && s.r.Intn(3) != 0 {
 			continue
 		}
-		if v := s.checkProof(preader, who, root, k); v != nil {
-			return v
-		}
+		s.report(s.checkProof(preader, who, root, k))
 	}
 	return nil
 }
@@ -1806,7 +1818,7 @@ func TestCheck(t *testing.T) {
 		part = "all"
 	}
 	if part == "all" || part == "hist" {
-		nseq := ev.Pick(4000, 100000)
+		nseq := ev.Pick(6000, 100000)
 		nops := 25
 		parallel(nseq, func(i int) {
 			id := fmt.Sprint("seq", i)
@@ -1823,18 +1835,32 @@ func TestCheck(t *testing.T) {
 				}
 			}
 			run.Obs("sequences_"+modeName(s.mode), 1)
+			if s.blocks {
+				run.Obs("sequences_putbatch_flush_collapse_only", 1)
+			}
 			if i < 2 {
 				run.Sample(map[string]any{"case": id, "ops": s.log})
+			}
+			for _, nv := range s.viols {
+				run.Violation(nv.sig, id, nv.detail, map[string]any{"mode": modeName(s.mode), "ops": s.log, "detail": nv.detail})
 			}
 			if v != nil {
 				s.logf("content now: %s", s.contentString())
 				w := map[string]any{"mode": modeName(s.mode), "ops": s.log, "detail": v.detail}
+				symptom := v.sig
 				if !strings.HasPrefix(v.sig, "seek-") && !strings.HasPrefix(v.sig, "panic:") {
 					// Same history without random reads: still wrong? And with every
 					// PutBatch followed by Flush + reopen from the root hash?
-					if v1 := reexec(s.mode, s.uni, s.near, s.ops); v1 != nil && reexec(s.mode, s.uni, s.near, withReopens(s.ops)) == nil {
+					cls := func(x *violation) string {
+						if x == nil {
+							return ""
+						}
+						return strings.SplitN(x.sig, ":", 2)[0]
+					}
+					v1 := reexec(s.mode, s.uni, s.near, s.ops)
+					if v1 != nil && cls(reexec(s.mode, s.uni, s.near, withReopens(s.ops))) != cls(v1) {
 						w["symptom"] = v.sig
-						w["note"] = "the same history is correct when the trie is flushed and reopened from its root hash after every PutBatch"
+						w["note"] = "the same history does not show this when the trie is flushed and reopened from its root hash after every PutBatch"
 						v.detail = v.sig + ": " + v.detail
 						v.sig = "history-dependence:in-memory-nodes-left-by-putbatch"
 						if s.blocks {
@@ -1843,7 +1869,7 @@ func TestCheck(t *testing.T) {
 					}
 				}
 				if firstOfSig(v.sig) {
-					if m := shrink(s.mode, s.uni, s.near, s.ops, v.sig); m != nil {
+					if m := shrink(s.mode, s.uni, s.near, s.ops, symptom); m != nil {
 						var l []string
 						for _, o := range m {
 							l = append(l, o.String())
@@ -1858,7 +1884,7 @@ func TestCheck(t *testing.T) {
 		})
 	}
 	if part == "all" || part == "proof" {
-		ncase := ev.Pick(1500, 30000)
+		ncase := ev.Pick(2000, 30000)
 		attempts := 120
 		parallel(ncase, func(i int) {
 			id := fmt.Sprint("proof", i)
